@@ -20,7 +20,7 @@ def ds_model(scenario, depth, maxlen, alphabet, s0=(), t0=(), simulate=None):
     for i in range(3):
         c[f"S{i + 1}"] = s0[i] if i < len(s0) else ""
         c[f"T{i + 1}"] = t0[i] if i < len(t0) else ""
-    return Model("MC_DimSets.tla", c, invariants=["Prop_Unique", "Prop_Laws", "EmitInv"], constraints=["NamesUnique"],
+    return Model("MC_DimSets.tla", c, invariants=["Prop_Unique", "Prop_Laws", "EmitInv"],
                  properties=["Prop_Receiver"] if simulate is None else [],
                  workers=4 if simulate is None else 1, simulate=simulate, depth=depth + 1 if simulate else None,
                  label=f"MC_DimSets/{scenario}/depth{depth}/alphabet={''.join(sorted(alphabet))}/s0={'-'.join(s0)}/t0={'-'.join(t0)}"
@@ -35,6 +35,7 @@ def check_C14(tier, seed):
     if tier == "quick":
         models = [ds_model("pairs", 1, 3, A4), ds_model("hist", 2, 3, A4, ["A", "B"], ["B", "C"]),
                   ds_model("hist", 2, 3, ["A", "C", "A2", "A3"], ["C"], ["A3"]),
+                  ds_model("hist", 2, 3, ["A", "B", "C", "A2"], ["B", "A"], ["C"]),
                   ds_model("hist", 4, 3, A5, ["A", "B", "C"], ["A3"], simulate="num=40"),
                   ds_model("hist", 6, 3, A6, ["B", "A"], ["C", "D", "A2"], simulate="num=40")]
     else:
